@@ -132,6 +132,7 @@ pub struct DirModel {
     pub n_passed: u64,
 
     pub honest_peer: bool,
+    reported_phantom: bool,
     pub violations: Vec<Violation>,
     pub c: Counters,
 }
@@ -180,6 +181,7 @@ impl DirModel {
             n_acked_frags: 0,
             n_passed: 0,
             honest_peer: true,
+            reported_phantom: false,
             violations: Vec::new(),
             c: Counters::default(),
         }
@@ -510,6 +512,12 @@ impl DirModel {
                 if !has_frame(id) {
                     all_known = false;
                     break;
+                }
+                // the sender's own log may only know frames that were put on the wire (the model
+                // remembers the last 24576 of them, three times the longest log)
+                if !self.frames.contains_key(&id) && !self.reported_phantom {
+                    self.reported_phantom = true;
+                    self.viol("C15", "sender-log-knows-unsent-frame", format!("the sender's frame log answers for frame id {} (named by ack group base {} bitfield {:#x}) although no frame with that id was ever transmitted", id, g.base_id, g.bitfield));
                 }
                 if g.bitfield >> i & 1 != 0 {
                     match self.frames.get(&id) {
